@@ -516,7 +516,7 @@ impl ValueIter {
 //@rule R8
 //@sub /pub fn merge_sections_many<I, E>\(sections: Vec<I>\) -> impl Iterator<Item = Result<Value, E>> \+ Send\s*where\s*I: Iterator<Item = Result<Value, E>> \+ Send,/ => fn merge_sections_many(sections: Vec<VIter>, Ghost(limit): Ghost<int>) -> (r: ValueIter)
 //@sub /sections\.into_iter\(\)\.map\(\|s\| \(s, None\)\)\.collect\(\)/ => pair_with_none(sections) min=0
-//@sub /ValueIter \{/ => ValueIter { hist: Ghost(Hist { wins: Seq::empty(), emitted: Seq::empty(), limit: limit }),
+//@sub /ValueIter \{/ => let r__ = ValueIter { hist: Ghost(Hist { wins: Seq::empty(), emitted: Seq::empty(), limit: limit }),
 //@sig
     requires
         [[L: pre]]
@@ -529,6 +529,15 @@ impl ValueIter {
         r.hist@.wins.len() == 0 && r.hist@.emitted.len() == 0 && r.hist@.limit == limit,
         [[L: establishes_state_invariant]]
         live_inv(r),
+//@open
+    let ghost ss = sections@;
+//@close
+    ;
+    proof {
+        lemma_initial_state(r__.sections@, ss, limit);
+        assert(r__.hist@.emitted + pending_out(r__) =~= Seq::<Value>::empty());
+    }
+    r__
 //@end
 
 } // verus!
